@@ -567,8 +567,10 @@ func runScenario(sc scenario) func(t *testing.T, x *gate.Exec) {
 				}
 				switch p.Kind {
 				case "root":
-					add(p.Key+" <- integrate+root", base, func() { env.Answer(p, "integrate") })
-					add(p.Key+" <- stale root (signer lags)", base+1, func() { staleRoots++; env.Answer(p, "stale") })
+					// a pass begins by reading the destination root: whatever batch of an earlier pass was waiting out a
+					// ResourceExhausted back-off has been abandoned with that pass (cancel, mastership loss, restart)
+					add(p.Key+" <- integrate+root", base, func() { clear(reOut); env.Answer(p, "integrate") })
+					add(p.Key+" <- stale root (signer lags)", base+1, func() { clear(reOut); staleRoots++; env.Answer(p, "stale") })
 					fault("error", "error")
 				case "add":
 					batch := p.Key[:strings.LastIndex(p.Key, "#")]
